@@ -376,3 +376,108 @@ mod tests {
         );
     }
 }
+
+/// Kani proof harnesses (all `i32` x all `f64` bit patterns, loop-free: each run is a complete proof).
+#[cfg(feature = "verif_kani")]
+mod verif_kani {
+    use std::cmp::Ordering;
+
+    use super::*;
+    use crate::values::types::int::inline_int::InlineInt;
+
+    fn any_small<'v>() -> NumRef<'v> {
+        NumRef::Int(StarlarkIntRef::Small(InlineInt::new_unchecked(kani::any())))
+    }
+
+    fn any_float<'v>() -> NumRef<'v> {
+        NumRef::Float(StarlarkFloat(kani::any()))
+    }
+
+    /// `f64_to_i32_exact(f) == Some(i)` exactly when `f` is the integer `i`.
+    #[kani::proof]
+    fn c10_f64_to_i32_exact() {
+        let f: f64 = kani::any();
+        match NumRef::f64_to_i32_exact(f) {
+            Some(i) => assert!(i as f64 == f),
+            None => {
+                let i: i32 = kani::any();
+                assert!(i as f64 != f);
+            }
+        }
+        kani::cover!(NumRef::f64_to_i32_exact(f).is_some());
+        kani::cover!(NumRef::f64_to_i32_exact(f).is_none());
+    }
+
+    /// equal numbers hash equally: small int vs small int, small int vs float, float vs float
+    /// (covers -0.0 / 0.0, NaN payloads, infinities, integral floats).
+    #[kani::proof]
+    fn c09_num_eq_implies_same_hash_small_float() {
+        let (a, b) = (any_small(), any_float());
+        if a == b {
+            assert!(a.get_hash_64() == b.get_hash_64());
+        }
+        assert!((a == b) == (b == a));
+        assert!((a.cmp(&b) == Ordering::Equal) == (a == b));
+        assert!(a.cmp(&b) == b.cmp(&a).reverse());
+        kani::cover!(a == b);
+        kani::cover!(a != b);
+    }
+
+    #[kani::proof]
+    fn c09_num_eq_implies_same_hash_float_float() {
+        let (a, b) = (any_float(), any_float());
+        if a == b {
+            assert!(a.get_hash_64() == b.get_hash_64());
+        }
+        assert!(a == a);
+        assert!((a == b) == (b == a));
+        assert!((a.cmp(&b) == Ordering::Equal) == (a == b));
+        kani::cover!(a == b && a.as_float().to_bits() != b.as_float().to_bits());
+        kani::cover!(a.as_float().is_nan() && b.as_float().is_nan());
+    }
+
+    #[kani::proof]
+    fn c09_num_eq_implies_same_hash_small_small() {
+        let (a, b) = (any_small(), any_small());
+        if a == b {
+            assert!(a.get_hash_64() == b.get_hash_64());
+        }
+        assert!((a == b) == (a.as_int() == b.as_int()));
+        assert!((a.cmp(&b) == Ordering::Equal) == (a == b));
+        kani::cover!(a == b);
+    }
+
+    /// Mixed transitivity: small int / float / float and float / small int / float.
+    #[kani::proof]
+    fn c09_num_eq_transitive_mixed() {
+        let (a, b, c) = (any_small(), any_float(), any_float());
+        if a == b && b == c {
+            assert!(a == c);
+        }
+        if b == a && a == c {
+            assert!(b == c);
+        }
+        if a.cmp(&b) != Ordering::Greater && b.cmp(&c) != Ordering::Greater {
+            assert!(a.cmp(&c) != Ordering::Greater);
+        }
+        kani::cover!(a == b && b == c);
+    }
+
+    /// Big integer vs float: equality must be exact (no rounding of the integer), so that `==` stays transitive.
+    /// BOUNDED: big integers within the i64 range only (num-bigint digit loops unwound).
+    #[kani::proof]
+    #[kani::unwind(4)]
+    fn c09_num_eq_big_float_exact_bounded() {
+        use num_bigint::BigInt;
+        use crate::values::types::bigint::StarlarkBigInt;
+        let i: i64 = kani::any();
+        kani::assume(i < i32::MIN as i64 || i > i32::MAX as i64);
+        let f: f64 = kani::any();
+        let big = StarlarkBigInt::unchecked_new(BigInt::from(i));
+        let a = NumRef::Int(StarlarkIntRef::Big(&big));
+        let b = NumRef::Float(StarlarkFloat(f));
+        let exact = f >= -9223372036854775808.0 && f < 9223372036854775808.0 && (f as i64) == i && (f as i64) as f64 == f;
+        assert!((a == b) == exact);
+        kani::cover!(a == b);
+    }
+}
